@@ -227,7 +227,9 @@ func namedChan(t types.Type) string {
 
 func (cr *classResolver) classOf1(v ssa.Value) classSet {
 	cs := classSet{}
-	if nc := namedChan(v.Type()); nc != "" {
+	// a named channel type that is an actor's inbox (a method of it is a go target) is a class of
+	// its own; other named channel types (e.g. a one-shot request type) are traced like any channel
+	if nc := namedChan(v.Type()); nc != "" && cr.w.actorChanType(nc) {
 		cs.add(nc)
 		return cs
 	}
@@ -325,6 +327,18 @@ func (cr *classResolver) classOf1(v ssa.Value) classSet {
 		sites := cr.w.callers[fn]
 		for _, site := range sites {
 			if site.Parent().Synthetic != "" {
+				// receiver of a method value: what the closures made from the bound wrapper bind
+				if idx == 0 && strings.HasPrefix(site.Parent().Synthetic, "bound method wrapper") {
+					for _, g := range cr.w.ModFns {
+						for _, gb := range g.Blocks {
+							for _, gi := range gb.Instrs {
+								if mc, ok := gi.(*ssa.MakeClosure); ok && mc.Fn == ssa.Value(site.Parent()) && len(mc.Bindings) == 1 {
+									cs.union(cr.classOf(mc.Bindings[0]))
+								}
+							}
+						}
+					}
+				}
 				continue
 			}
 			args := site.Common().Args
@@ -565,4 +579,28 @@ func (t *commTable) inventory() map[string]int {
 		inv[k]++
 	}
 	return inv
+}
+
+
+// actorChanType: the named channel type has a method that is started as a goroutine.
+func (w *World) actorChanType(name string) bool {
+	if w.actorChans == nil {
+		w.actorChans = map[string]bool{}
+		for _, fn := range w.ModFns {
+			for _, b := range fn.Blocks {
+				for _, in := range b.Instrs {
+					g, ok := in.(*ssa.Go)
+					if !ok {
+						continue
+					}
+					if sc := g.Call.StaticCallee(); sc != nil && sc.Signature.Recv() != nil {
+						if nc := namedChan(sc.Signature.Recv().Type()); nc != "" {
+							w.actorChans[nc] = true
+						}
+					}
+				}
+			}
+		}
+	}
+	return w.actorChans[name]
 }
